@@ -6,6 +6,8 @@ props=[json.loads(l) for l in open(f'{root}/properties.jsonl')]
 # id -> (level, level text, design ref, technique, level note)
 META={
  "C15":("exploration","Generated wire values and generated response texts are checked against an independent strict JSON reader, a round trip and the stated acceptance predicate; all 2^32 error codes are enumerated. Exploration of an infinite value space: no absence claim beyond the exhaustive i32 part.","4/C15","proptest round-trip + differential vs own strict JSON reader; exhaustive i32 enumeration","serde_json semantics trusted; malformed error objects inside responses are not judged; request params `null` (not a JSON-RPC params value) excluded"),
+ "C16":("exploration","Params texts are constructed so that every array element's exact source text is known; each typed read through the library is compared with serde_json::from_str of that text, over generated read plans. Sampled exploration of texts x plans.","4/C16","proptest differential vs plain serde_json parse on constructed texts","serde_json::from_str is the reference parse"),
+ "C20":("exploration","Insert sequences (incl. values whose Serialize fails midway and clones of half-built builders) are applied to both builders; the emitted text is re-read by an independent reader and compared with the to_value images of the successful inserts; all tuple arities and blanket impls are covered.","4/C20","proptest operation sequences + round-trip through own JSON reader","serde_json::to_value is the reference image; a builder whose only inserts failed may give None or an empty container"),
 }
 HOOK_COMMITS=["f958b76"]
 NOT_BUILT="check not built yet in this session (work in progress; DESIGN.md section 9 gives the order)"
